@@ -12,6 +12,7 @@ import (
 	"math/big"
 	"strconv"
 	"strings"
+	"sync"
 
 	"github.com/btcsuite/btcd/btcec/v2"
 	"github.com/btcsuite/btcd/btcec/v2/ellswift"
@@ -111,6 +112,8 @@ func (P) Exec(line string) string {
 		return execSched(unhx(f[2]), f[3], f[4] == "1")
 	case "vec":
 		return execVec(unhx(f[2]), f[3], f[4] == "1", atoi(f[5]), unhx(f[6]), atoi(f[7]), unhx(f[8]), f[9] == "1")
+	case "conc":
+		return execConc(f[2], strings.Split(f[3], ";"))
 	case "pk":
 		return execPk(unhx(f[2]), f[3], f[4] == "1", splitList(f[5], ";"), f[6], splitList(f[7], ";"))
 	case "ep":
@@ -547,4 +550,119 @@ func execPk(secret []byte, magic string, ini bool, pkts []string, tam string, re
 		ss.SendLCtr == rs.RecvLCtr && ss.SendPCtr == rs.RecvPCtr
 	out = append(out, fmt.Sprintf("st=%d,%d,%d,%v", rs.RecvLCtr, rs.RecvPCtr, ss.SendPCtr, eq))
 	return strings.Join(out, " ")
+}
+
+// ---------------------------------------------------------------- concurrent schedules
+
+// execConc runs every session of the line in its own goroutine, all released
+// at the same moment. Each session is deterministic on its own (so the answer
+// is), only the interleaving varies: cipher instances must share no state.
+func execConc(mode string, sessions []string) string {
+	// every session is run by `reps` goroutines at once (replicas must all give
+	// the same answer; more goroutines = more interleavings at no cost for the
+	// reference, which computes each session once)
+	const reps = 3
+	res := make([][reps]string, len(sessions))
+	var wg sync.WaitGroup
+	start := make(chan struct{})
+	for i, t := range sessions {
+		for k := 0; k < reps; k++ {
+			wg.Add(1)
+			go func(i, k int, f []string) {
+				defer wg.Done()
+				defer func() {
+					if r := recover(); r != nil {
+						res[i][k] = "panic"
+					}
+				}()
+				<-start
+				switch mode {
+				case "skip":
+					res[i][k] = concSkip(unhx(f[0]), uint64(atoi(f[1])), atoi(f[2]), atoi(f[3]))
+				case "peer":
+					res[i][k] = concPeer(unhx(f[0]), f[1] == "1", atoi(f[2]), atoi(f[3]), atoi(f[4]))
+				default:
+					res[i][k] = "bad-op"
+				}
+			}(i, k, strings.Split(t, ":"))
+		}
+	}
+	close(start)
+	wg.Wait()
+	out := make([]string, len(sessions))
+	for i := range res {
+		out[i] = res[i][0]
+		for k := 1; k < reps; k++ {
+			if res[i][k] != res[i][0] {
+				out[i] = "replicas-differ"
+			}
+		}
+	}
+	return strings.Join(out, "|")
+}
+
+func concSkip(key []byte, epoch uint64, rounds, seed int) string {
+	s, err1 := v2transport.NewFSChaCha20Poly1305(append([]byte(nil), key...))
+	r, err2 := v2transport.NewFSChaCha20Poly1305(append([]byte(nil), key...))
+	if err1 != nil || err2 != nil {
+		return "bad-op"
+	}
+	s.VerifAdvanceCtr(epoch * 224)
+	r.VerifAdvanceCtr(epoch * 224)
+	h := sha256.New()
+	total := 0
+	for i := 0; i < rounds; i++ {
+		s.VerifAdvanceCtr(222)
+		r.VerifAdvanceCtr(222)
+		msgs := [][]byte{fill(seed+2*i, 1+(seed+i)%40), fill(seed+2*i+1, 1+(seed+3*i)%40)}
+		for _, m := range msgs {
+			ct, err := s.Encrypt(nil, m)
+			if err != nil {
+				return "err"
+			}
+			pt, err := r.Decrypt(nil, ct)
+			if err != nil || !bytes.Equal(pt, m) {
+				return fmt.Sprintf("lost-sync@%d", i)
+			}
+			h.Write(ct)
+			total += len(ct)
+		}
+	}
+	if !bytes.Equal(s.VerifKey(), r.VerifKey()) || s.VerifCtr() != r.VerifCtr() {
+		return "desync"
+	}
+	return fmt.Sprintf("%d:%x,%s,%d", total, h.Sum(nil), hx(s.VerifKey()), s.VerifCtr())
+}
+
+func concPeer(secret []byte, ini bool, warm, n, seed int) string {
+	snd, rcv := v2transport.NewPeer(), v2transport.NewPeer()
+	var wire bytes.Buffer // sender writes, receiver reads; both in this goroutine
+	snd.UseReadWriter(&wire)
+	rcv.UseReadWriter(&wire)
+	if snd.VerifCreateV2Ciphers(secret, ini, 0xd9b4bef9) != nil || rcv.VerifCreateV2Ciphers(secret, !ini, 0xd9b4bef9) != nil {
+		return "bad-op"
+	}
+	h := sha256.New()
+	total := 0
+	for i := 0; i < warm+n; i++ {
+		m := fill(seed+i, 1+(seed+7*i)%40)
+		ign := i%5 == 4 && i+1 < warm+n
+		b, _, err := snd.V2EncPacket(m, nil, ign)
+		if err != nil {
+			return "err"
+		}
+		h.Write(b)
+		total += len(b)
+		if !ign {
+			pt, err := rcv.V2ReceivePacket(nil)
+			if err != nil || !bytes.Equal(pt, m) {
+				return fmt.Sprintf("lost-sync@%d", i)
+			}
+		}
+	}
+	ss, rs := snd.VerifSession(), rcv.VerifSession()
+	if !bytes.Equal(ss.SendPKey, rs.RecvPKey) || !bytes.Equal(ss.SendLKey, rs.RecvLKey) || ss.SendPCtr != rs.RecvPCtr {
+		return "desync"
+	}
+	return fmt.Sprintf("%d:%x,%s,%d", total, h.Sum(nil), hx(ss.SendPKey), ss.SendPCtr)
 }
